@@ -178,6 +178,11 @@ func (h *sHarness) truth(req, st drv.Step) drv.Step {
 		res[k] = v
 	}
 
+	// "zero" is an answer to a Spec request, "404" to a block request: for any other request they are plain errors
+	if how := drv.Str(st["how"]); (how == "zero" && drv.Str(req["k"]) != "spec") || (how == "404" && drv.Str(req["k"]) != "block") {
+		res["how"] = "err"
+	}
+
 	if drv.Str(st["how"]) != "ok" {
 		return res
 	}
@@ -1046,6 +1051,7 @@ type lCall struct {
 	id     int
 	op     string
 	cancel context.CancelFunc
+	canc   bool
 	done   bool
 	logged bool
 	ret    drv.Step
@@ -1280,7 +1286,8 @@ func runL(t *testing.T, tr *drv.Tracer, sid int, sched []drv.Step) bool {
 			c := h.calls[drv.Num(st["c"])]
 			h.mu.Unlock()
 
-			if c != nil {
+			if c != nil && !c.canc {
+				c.canc = true
 				tr.Emit(drv.Step{"ev": "Cancel", "c": c.id})
 				c.cancel()
 				synctest.Wait()
